@@ -1,5 +1,135 @@
-(** C12 placeholder while the proofs are being written. *)
-From Asn1V Require Import Base.Prelude Syntax.Asn1 Check.Location Check.Skeleton.
-Example C12_stub : swallows Ber = true.
-Proof. reflexivity. Qed.
-Print Assumptions C12_stub.
+(** C12 — ill-typed or out-of-constraint components are rejected with the
+    exact path.  Statements only.
+
+    Models: Check/TypeCheck.v (type_checker.py), Check/Constraints.v
+    (constraints_checker.py), Check/Skeleton.v (the member / choice /
+    enumeration error behaviour of the eight codecs' encoders), Check/Location.v
+    (ErrorWithLocation.add_location / location_str); [first_error] composes them
+    as Specification.encode(check_types=True, check_constraints=True) does.
+    Corruptions: Check/Corrupt.v.  Proofs: Check/TypeCheckProofs.v,
+    Check/PathProofs.v, Check/Refuted.v.
+
+    The positive theorems are about the REPAIRED tree ([Repaired] variant:
+    proposed_fixes/C12-recursive-path.diff, C12-enumerated-unknown-name.diff,
+    C12-addition-errors.diff); the [..._refuted] theorems state, with
+    witnesses, what the unrepaired code does instead, and two departures that
+    are pinned by the test-suite and therefore remain (known findings). *)
+From Asn1V Require Import Base.Prelude Syntax.Asn1 Check.Location Check.WellTyped Check.Constraints
+     Check.Admits Check.TypeCheck Check.Skeleton Check.Corrupt
+     Check.ConstraintsProofs Check.TypeCheckProofs Check.PathProofs Check.Refuted.
+
+(** Well-typed values are never rejected by the type check (any variant, any
+    compilation context, through references and recursion). *)
+Theorem C12_typecheck_complete :
+  forall vr fuel env name v,
+    well_typed_top fuel env name v = true -> tcheck_top vr fuel env name v = Pass.
+Proof. exact tcheck_top_complete. Qed.
+Print Assumptions C12_typecheck_complete.
+
+Theorem C12_typecheck_complete_node :
+  forall vr fuel env c t v, well_typed fuel env t v = true -> tcheck vr fuel env c t v = Pass.
+Proof. exact tcheck_complete. Qed.
+Print Assumptions C12_typecheck_complete_node.
+
+(** One fault, exact class and path.  Hypotheses:
+    - [good cd fuel env t v]: the uncorrupted value is well typed, admitted by
+      the constraints and encodable by codec [cd] (JER/XER/GSER require every
+      mandatory extension addition to be present);
+    - [corrupt_at]: [v'] is [v] with the component at path [p] replaced by a
+      fault of kind [k] (rejected Python type, unknown CHOICE alternative,
+      unknown ENUMERATED name, missing mandatory root member, constraint
+      violation); extension additions along the path are prefix closed;
+    - faults the TYPE CHECKER reports must not lie below a recursive type
+      reference ([crossed = false]); see C12_typecheck_recursive_path_refuted.
+    Conclusion: encode raises the class of the fault (EncodeError, or
+    ConstraintsError for a constraint violation) — so never bytes, never a
+    foreign exception — and the message starts with Type.member.member...
+    for all eight codecs. *)
+Theorem C12_one_fault_path :
+  forall cd fuel env name t v p k v' crossed,
+    lookup name env = Some t ->
+    good cd fuel env t v ->
+    corrupt_at env [name] t v p k v' crossed ->
+    (tc_kind k = true -> crossed = false) ->
+    outcome_class (first_error Repaired cd fuel env name v') = Some (class_of k) /\
+    outcome_path (first_error Repaired cd fuel env name v') = dotted (name1 name ++ names_along p).
+Proof. exact one_fault_path_dotted. Qed.
+Print Assumptions C12_one_fault_path.
+
+(** The same with the location list itself (no constructor location left). *)
+Theorem C12_one_fault_location :
+  forall cd fuel env name t v p k v' crossed,
+    lookup name env = Some t ->
+    good cd fuel env t v ->
+    corrupt_at env [name] t v p k v' crossed ->
+    (tc_kind k = true -> crossed = false) ->
+    fails_with (first_error Repaired cd fuel env name v') (class_of k) (name1 name ++ names_along p).
+Proof. exact one_fault_path_proof. Qed.
+Print Assumptions C12_one_fault_location.
+
+(** Refuted, known finding (pinned by tests/test_type_checker.py): below a
+    recursive reference the type checker's path contains the type name once
+    per level. *)
+Theorem C12_typecheck_recursive_path_refuted :
+  forall vr, exists env name t v p v',
+    lookup name env = Some t /\ good Ber 10 env t v /\
+    corrupt_at env [name] t v p KWrongType v' true /\
+    outcome_class (first_error vr Ber 10 env name v') = Some EEncode /\
+    outcome_path (first_error vr Ber 10 env name v') = "R.next.R.v"%string /\
+    dotted (name1 name ++ names_along p) = "R.next.v"%string.
+Proof. exact typecheck_recursive_path_refuted. Qed.
+Print Assumptions C12_typecheck_recursive_path_refuted.
+
+(** Refuted, known finding (message pinned by the suite): a str is accepted
+    where an INTEGER is expected and surfaces as a foreign TypeError. *)
+Theorem C12_integer_str_accepted_refuted :
+  forall vr,
+    outcome_class (tcheck_top vr 10 envR "R"%string (VSeq [("v"%string, VStr [120])])) = None /\
+    outcome_class (first_error vr Ber 10 envR "R"%string (VSeq [("v"%string, VStr [120])])) =
+    Some (EForeign "TypeError"%string).
+Proof. exact integer_str_accepted_refuted. Qed.
+Print Assumptions C12_integer_str_accepted_refuted.
+
+(** Refuted for the unrepaired tree, repaired by proposed_fixes/C12-*.diff. *)
+Theorem C12_orig_recursive_path_collapses_refuted :
+  outcome_path (first_error Orig Ber 10 envR "R"%string (depth2 (VInt 9))) = "R.next.v"%string /\
+  outcome_path (first_error Orig Ber 10 envR "R"%string (depth2 (VBytes [120]))) = "R.next.R.next.R.v"%string /\
+  outcome_path (first_error Orig Ber 10 envR "R"%string
+     (VSeq [("v"%string, VInt 0); ("next"%string, VSeq [("v"%string, VInt 0); ("next"%string, VSeq [])])]))
+  = "R.next"%string /\
+  outcome_path (first_error Repaired Ber 10 envR "R"%string (depth2 (VInt 9))) = "R.next.next.v"%string /\
+  outcome_path (first_error Repaired Ber 10 envR "R"%string
+     (VSeq [("v"%string, VInt 0); ("next"%string, VSeq [("v"%string, VInt 0); ("next"%string, VSeq [])])]))
+  = "R.next.next"%string.
+Proof. exact orig_recursive_path_collapses_refuted. Qed.
+Print Assumptions C12_orig_recursive_path_collapses_refuted.
+
+Theorem C12_orig_addition_enum_swallowed_refuted :
+  first_error Orig Ber 10 envG "G"%string vG_bad = Pass /\
+  first_error Orig Oer 10 envG "G"%string vG_bad = Pass /\
+  outcome_path (first_error Orig Jer 10 envG "G"%string vG_bad) = "G.x"%string /\
+  (forall cd, outcome_class (first_error Repaired cd 10 envG "G"%string vG_bad) = Some EEncode /\
+              outcome_path (first_error Repaired cd 10 envG "G"%string vG_bad) = "G.x"%string).
+Proof. exact orig_addition_enum_swallowed_refuted. Qed.
+Print Assumptions C12_orig_addition_enum_swallowed_refuted.
+
+Theorem C12_orig_enum_keyerror_refuted :
+  outcome_class (first_error Orig Per 10 envG "G"%string (VSeq [("e"%string, VEnum "zz"%string)])) = Some (EForeign "KeyError"%string) /\
+  outcome_class (first_error Orig Uper 10 envG "G"%string (VSeq [("e"%string, VEnum "zz"%string)])) = Some (EForeign "KeyError"%string) /\
+  outcome_class (first_error Orig Gser 10 envG "G"%string (VSeq [("e"%string, VEnum "zz"%string)])) = Some (EForeign "KeyError"%string) /\
+  outcome_class (first_error Repaired Per 10 envG "G"%string (VSeq [("e"%string, VEnum "zz"%string)])) = Some EEncode.
+Proof. exact orig_enum_keyerror_refuted. Qed.
+Print Assumptions C12_orig_enum_keyerror_refuted.
+
+(** Non-vacuity of C12_one_fault_path: a constraint fault two levels below a
+    recursive reference (crossed = true is allowed for this kind). *)
+Example C12_hypotheses_inhabited :
+  lookup "R"%string envR = Some tR /\
+  good Jer 10 envR tR (depth1 (VInt 1)) /\
+  corrupt_at envR ["R"%string] tR (depth1 (VInt 1)) [SField "next"%string; SField "v"%string] KConstraint
+             (depth1 (VInt 9)) true /\
+  (tc_kind KConstraint = true -> true = false) /\
+  outcome_class (first_error Repaired Jer 10 envR "R"%string (depth1 (VInt 9))) = Some EConstraints /\
+  outcome_path (first_error Repaired Jer 10 envR "R"%string (depth1 (VInt 9))) = "R.next.v"%string.
+Proof. exact one_fault_example. Qed.
+Print Assumptions C12_hypotheses_inhabited.
